@@ -1484,6 +1484,7 @@ pub fn codegen(
     const MAX_ITERATIONS: usize = 200;
 
     let mut prev_undefined = HashSet::new();
+    let mut confirmed = false;
     let mut prev_errors = Diagnostics::default().with_code_map(&ctx.tree.code_map);
 
     let mut errors = Diagnostics::default().with_code_map(&ctx.tree.code_map);
@@ -1526,9 +1527,14 @@ pub fn codegen(
 
             // If there were no other errors, then we should see if there was anything undefined.
             if errors.is_empty() {
-                // Nothing undefined anymore? Then we're done!
+                // Nothing undefined anymore? Then we're done -- provided a pass has already confirmed the symbols:
+                // in the first pass that defines symbols, a reference may have been resolved to an outer symbol
+                // because the inner symbol of the same name (defined further down) did not exist yet.
                 if ctx.undefined.is_empty() {
-                    break;
+                    if confirmed {
+                        break;
+                    }
+                    confirmed = true;
                 } else {
                     // If the same symbols are undefined that were undefined in the previous pass, they are truly undefined.
                     if ctx.undefined == prev_undefined {
